@@ -39,7 +39,8 @@ Definition elementise (e : str) : elem :=
     let lang := replace_char ")" "-" (replace_char "(" "-" lang) in
     (count_char "(" e, unquote lang, 0)
   else if has_char ")" e then
-    (0, unquote (strip_ws (cut_at ":" (remove_char ")" e))), count_char ")" e)
+    (* the tip name is what precedes the first ")": inner labels and their lengths follow it *)
+    (0, unquote (strip_ws (cut_at ":" (cut_at ")" e))), count_char ")" e)
   else (0, unquote (cut_at ":" e), 0).
 
 (* ---------- the stack machine ---------- *)
